@@ -195,6 +195,43 @@ Section Proofs.
     simpl. rewrite !upd_same. simpl. rewrite Hp. auto.
   Qed.
 
+  (** Entering a runtime saves the thread's current one on ITS stack and installs the new one;
+      the matching exit restores exactly what was saved (one atomic action each). *)
+  Lemma enter_step : enter_atomic fl = true -> forall s t r rest,
+    prog (tl s t) = Enter r :: rest ->
+    runtimes (step t s) t = Some r /\ previous (step t s) t = runtimes s t :: previous s t /\
+    prog (tl (step t s) t) = rest.
+  Proof.
+    intros Hat s t r rest Hp. unfold step. rewrite Hp. unfold step_enter. rewrite Hat.
+    simpl. rewrite !upd_same. simpl. rewrite Hp. auto.
+  Qed.
+
+  Lemma exit_step : exit_atomic fl = true -> forall s t saved st rest,
+    prog (tl s t) = Exit :: rest -> previous s t = saved :: st ->
+    runtimes (step t s) t = saved /\ previous (step t s) t = st /\ prog (tl (step t s) t) = rest.
+  Proof.
+    intros Hat s t saved st rest Hp Hpv. unfold step. rewrite Hp. unfold step_exit. rewrite Hat, Hpv.
+    simpl. rewrite !upd_same. simpl. rewrite Hp. auto.
+  Qed.
+
+  (** with r: <anything the OTHER threads do> : leaving the block restores the runtime the thread
+      had before entering, whatever ran in between on other threads. *)
+  Lemma enter_exit_restores : enter_atomic fl = true -> exit_atomic fl = true ->
+    forall s t r rest, prog (tl s t) = Enter r :: Exit :: rest ->
+    forall sched, ~ In t sched ->
+    let s1 := run sched (step t s) in
+    runtimes s1 t = Some r /\
+    runtimes (step t s1) t = runtimes s t /\ previous (step t s1) t = previous s t.
+  Proof.
+    intros Hen Hex s t r rest Hp sched Hnin s1.
+    destruct (enter_step Hen s t r (Exit :: rest) Hp) as (H1 & H2 & H3).
+    destruct (run_other sched t (step t s) Hnin) as (H4 & H5 & H6). fold s1 in H4, H5, H6.
+    split; [congruence|].
+    assert (Hp1 : prog (tl s1 t) = Exit :: rest) by congruence.
+    assert (Hpv1 : previous s1 t = runtimes s t :: previous s t) by congruence.
+    destruct (exit_step Hex s1 t _ _ rest Hp1 Hpv1) as (H7 & H8 & _). auto.
+  Qed.
+
   (** ---------------------------------------------------------------- register *)
   Lemma assoc_aset_same : forall A k (v : A) l, assoc k (aset k v l) = Some v.
   Proof.
